@@ -4,17 +4,18 @@ from bounded.run_e2e import run_programs
 from checks.common import CheckRun
 
 EXPLANATION = (
-    "Contract chain K1..K9 (DESIGN §3). P tier: verification conditions from the real source of the constant-folding "
-    "functions the expression lowering relies on (shared with C11). B tier (bounded, never counted as proved): every program of an "
-    "enumerated scope of expression shapes is compiled by the real pipeline; the emitted blueprint is executed "
-    "symbolically by the S2 circuit model and compared by SMT, for ALL int32 valuations of the named inputs, with "
-    "the S3 source semantics, output by output (value and signal type)."
+    "Contract chain K1..K9 (DESIGN §3). P tier (unbounded): K3 contracts on the real _lower_logical_and / _lower_logical_or "
+    "(result denotes [l != 0 and/or r != 0] on the requested type, IR builder and _is_boolean_producer used by contract) "
+    "and the constant-folding functions the expression lowering relies on (shared with C11). B tier (bounded, never "
+    "counted as proved): every program of an enumerated scope of expression shapes is compiled by the real pipeline; the "
+    "emitted blueprint is executed symbolically by the S2 circuit model and compared by SMT, for ALL int32 valuations of "
+    "the named inputs, with the S3 source semantics, output by output (value and signal type)."
 )
 
 
 def run(tier):
     cr = CheckRun("C01", tier, "other", EXPLANATION, "DESIGN §4 C01")
-    cr.contracts(["contracts.c11"])
+    cr.contracts(["contracts.c01", "contracts.c11"])
     progs = gen.c01_scope(tier)
     for optimize in (True, False):
         cr.bounded_check(
